@@ -25,7 +25,9 @@ RULE = ("trajectories: nsamples 1..6 x nspecies 1..4 x (grid w,h,d 1..3 | graph 
         "(label / index / float index / object; index / tuple / list / coordinate object / numpy int); every species x sample state, "
         "whole states, merged trajectories; lookups: before first, after last, on every sample, exact midpoints, random in-between, "
         "x three policies x four query forms (number, UnitValue same unit, UnitValue other unit, text); malformed stream: unknown "
-        "species / out-of-range cell / sample, non-time query, unknown policy; object re-use: after the queries the caller assigns "
+        "species / out-of-range cell / sample, non-time query, unknown policy; merge flag given as False / 0 / numpy.False_ / numpy.bool_(0) (and the truthy forms); on half of the "
+        "trajectories a refused `system.space = <space with an undefined environment>` precedes the accessor comparisons (on the "
+        "caller's system before construction, or on trajectory.system); object re-use: after the queries the caller assigns "
         "another space (transposed / larger) and a network with reversed species order to the system object it had passed to "
         "RDTrajectory and up to 16 accessor calls are repeated (results must not change).  A case is non-trivial when the trajectory has "
         ">1 of the dimension being indexed (or, for lookups, when the query is not outside the sampled range); distinct by "
@@ -170,6 +172,24 @@ def near_discontinuity(ts, q, policy):
     return d / scale
 
 
+def refused_space_assignment(ctx, target, kind, shape):
+    """`target.space = <space of another shape whose cells refer to an environment the network does not have>` must raise, and
+    must leave `target` as it was (the accessors are compared with direct indexing afterwards)"""
+    from strengths.rdspace import RDGridSpace, RDGraphSpace, RDGraphSpaceNode
+    if kind == "grid":
+        w, h, d = shape
+        bad = RDGridSpace(w=w + 1, h=h + 2, d=d, cell_env=7)
+    else:
+        bad = RDGraphSpace(nodes=[RDGraphSpaceNode(volume=1, environment=7) for _ in range(shape + 2)], edges=[])
+    try:
+        target.space = bad
+        ctx.count("refused_space_assignment_was_accepted")
+        return False
+    except Exception:  # noqa
+        ctx.count("refused_space_assignment")
+        return True
+
+
 def build_case(ctx, rng, idx):
     """one directly constructed trajectory + its query list"""
     from strengths import UnitArray, UnitValue
@@ -195,16 +215,23 @@ def build_case(ctx, rng, idx):
     from strengths.units import Units, UnitsSystem, UnitsDimensions
     du = Units(UnitsSystem(*dsys), UnitsDimensions(0, 0, 1))
     tu = Units(UnitsSystem(*tsys), UnitsDimensions(0, 1, 0))
+    # failed-call aftermath: a refused edit of the system's space, on the caller's system before the trajectory is built or on the
+    # trajectory's own system afterwards, caught by the caller
+    refused = rng.choice([None, None, "before", "traj"])
+    if refused == "before":
+        refused_space_assignment(ctx, system, kind, shape)
     traj = RDTrajectory(data=UnitArray(data, du), t_sample=UnitArray([float(t) for t in ts], tu), system=system)
+    if refused == "traj":
+        refused_space_assignment(ctx, traj.system, kind, shape)
     return dict(kind=kind, shape=shape, nc=nc, ns=ns, N=N, system=system, data=data, ts=ts, dup=dup, dsys=dsys, tsys=tsys,
-                traj=traj, source="constructed")
+                traj=traj, source="constructed", refused=refused)
 
 
 def case_json(c):
     """everything needed to rebuild the trajectory (replay)"""
     return {"kind": c["kind"], "shape": list(c["shape"]) if c["kind"] == "grid" else c["shape"], "ns": c["ns"],
             "data": c["data"], "ts": [rstr(t) for t in c["ts"]], "dsys": list(c["dsys"]), "tsys": list(c["tsys"]),
-            "source": c["source"]}
+            "source": c["source"], "refused_space_assignment": c.get("refused")}
 
 
 def model_op(c, queries):
@@ -241,12 +268,12 @@ def gen_queries(ctx, rng, c, full):
                            exp=[data[k * ns * nc + s * nc + cc] for cc in range(nc)], s=s, k=k))
     for s in range(ns):
         sa, sj = species_arg(rng, s, system, sforms[s % 3])
-        qs.append(dict(q="traj", args=(sa, 0, True), mj={"q": "traj", "sp": sj, "pos": {"idx": 0}, "merge": True},
+        qs.append(dict(q="traj", args=(sa, 0, [True, 1, np.True_, np.bool_(1)][(s + N) % 4]), mj={"q": "traj", "sp": sj, "pos": {"idx": 0}, "merge": True},
                        exp=[sum(frac(data[k * ns * nc + s * nc + cc]) for cc in range(nc)) for k in range(N)], s=s, merged=True))
         cells = range(nc) if (full or nc <= 6) else rng.sample(range(nc), 6)
         for cc in cells:
             ca, cj = cell_arg(rng, cc, c["kind"], c["shape"], cforms[(s + cc) % 5])
-            qs.append(dict(q="traj", args=(sa, ca, False), mj={"q": "traj", "sp": sj, "pos": cj, "merge": False},
+            qs.append(dict(q="traj", args=(sa, ca, [False, 0, np.False_, np.bool_(0)][(s + cc) % 4]), mj={"q": "traj", "sp": sj, "pos": cj, "merge": False},
                            exp=[data[k * ns * nc + s * nc + cc] for k in range(N)], s=s, c=cc))
     # negative sample index (numpy wrap) and the malformed stream
     qs.append(dict(q="point", args=(0, -1, 0), mj={"q": "point", "sp": {"idx": 0}, "k": -1, "pos": {"idx": 0}},
@@ -338,13 +365,19 @@ def run_query(traj, q):
     if q["q"] == "state":
         return call(lambda: traj.get_state(a[0], a[1]))
     if q["q"] == "traj":
-        return call(lambda: traj.get_trajectory(a[0], a[1], merge=a[2]) if not a[2] or a[1] != 0 else traj.get_trajectory(a[0], merge=True))
+        # the flag is passed as given (False / 0 / numpy.False_ / numpy.bool_(0), True / 1 / numpy.True_ / numpy.bool_(1))
+        return call(lambda: traj.get_trajectory(a[0], a[1], merge=a[2]) if not a[2] or a[1] != 0 else traj.get_trajectory(a[0], merge=a[2]))
     return call(lambda: traj.get_sample_index(a[0], a[1]))
 
 
 def describe(q):
     d = {k: v for k, v in q.items() if k in ("q", "mj", "why", "pol", "form", "qv", "qunit", "where", "forms", "s", "k", "c", "merged")}
+    if q["q"] == "traj" and len(q["args"]) == 3:
+        d["merge_flag"] = repr(q["args"][2])      # False | 0 | np.False_ | True | 1 | np.True_
     return d
+
+
+MERGE_FLAGS = {"False": False, "0": 0, "np.False_": np.False_, "True": True, "1": 1, "np.True_": np.True_}
 
 
 def check_trajectory(ctx, c, qs, ans):
@@ -362,6 +395,8 @@ def check_trajectory(ctx, c, qs, ans):
         st, res = run_query(traj, q)
         m = ans[i] if ans is not None else None
         case = {"traj": cj, "query": describe(q)}
+        if q["q"] == "traj" and not q.get("malformed"):
+            ctx.count("merge_flag_%s.%s" % (type(q["args"][2]).__module__, type(q["args"][2]).__name__))
         kindkey = q["q"] + (":merged" if q.get("merged") else "") + (":whole" if q["q"] == "state" and q["args"][0] is None else "")
         ctx.count("query_" + kindkey)
         if q.get("malformed"):
@@ -596,7 +631,14 @@ def rebuild(cj):
     du = Units(UnitsSystem(*cj["dsys"]), UnitsDimensions(0, 0, 1))
     tu = Units(UnitsSystem(*cj["tsys"]), UnitsDimensions(0, 1, 0))
     ts = [Fraction(t) for t in cj["ts"]]
+    class _C:
+        def count(self, *a):
+            pass
+    if cj.get("refused_space_assignment") == "before":
+        refused_space_assignment(_C(), system, cj["kind"], shape)
     traj = RDTrajectory(data=UnitArray(cj["data"], du), t_sample=UnitArray([float(t) for t in ts], tu), system=system)
+    if cj.get("refused_space_assignment") == "traj":
+        refused_space_assignment(_C(), traj.system, cj["kind"], shape)
     return traj, ts, system, shape
 
 
@@ -683,7 +725,8 @@ def replay(ctx, rec):
     elif mj["q"] == "state":
         st, res = call(lambda: traj.get_state(sp(mj["sp"]), mj["k"]))
     else:
-        st, res = call(lambda: traj.get_trajectory(sp(mj["sp"]), pos(mj["pos"]), merge=mj["merge"]))
+        flag = MERGE_FLAGS.get(q.get("merge_flag"), mj["merge"])
+        st, res = call(lambda: traj.get_trajectory(sp(mj["sp"]), pos(mj["pos"]), merge=flag))
     exp = rec.get("expected")
     if st == "error":
         out.update(impl="raises " + str(res), expected=exp)
